@@ -44,7 +44,7 @@ NOT_APPLICABLE = {
 }
 
 # /repo commits that add guarded hooks (cfg log4rs_verif)
-HOOK_COMMITS = ['5a2703e', '057fc64', '8991438', 'db83ae1', 'e6cb540', '32ad153', 'e8650e2', '576c8c7', '543b0d5', '0f2b23c', '0e5799d', '5cc9e68', '86dd40b', '7b40c7c', '1e620db', 'f1a4822', 'f6a74ef', '311bbd6', '0315d07', '053d572']
+HOOK_COMMITS = ['5a2703e', '057fc64', '8991438', 'db83ae1', 'e6cb540', '32ad153', 'e8650e2', '576c8c7', '543b0d5', '0f2b23c', '0e5799d', '5cc9e68', '86dd40b', '7b40c7c', '1e620db', 'f1a4822', 'f6a74ef', '311bbd6', '0315d07', '053d572', '1880721']
 
 PROPS["C03"] = dict(
     functions=[
@@ -838,3 +838,40 @@ PROPS["C18"]["functions"] += ["FormattedChunk::encode (Highlight arm)"]
 PROPS["C18"]["bounds"] += "; (c) an empty {h()} group at every record level"
 PROPS["C18"]["harnesses"].append(H("c09_units::one_highlight", instance="{h()}: exactly one style call before and one reset after for Error / Warn / Info / Trace, none for Debug", symbolic="record level", bound="unwind 8", **_u))
 
+
+# ---- temporary: measurement ----
+PARSE_REC = [(r"^<log4rs::encode::pattern::parser::Parser<'_> as std::iter::Iterator>::next$", None, 3),
+             (r"^log4rs::encode::pattern::parser::Parser::<'_>::(argument|formatter|args|arg)$", None, 3)]
+PARSE_REC += [(r"drop_glue::<\[log4rs::encode::pattern::parser::Piece<'_>\]>", 0, 3),
+              (r"drop_glue::<\[std::vec::Vec<log4rs::encode::pattern::parser::Piece<'_>>\]>", 0, 3),
+              (r"^std::ptr::drop_glue::<(log4rs::encode::pattern::parser::(Piece|Formatter)<'_>|std::vec::Vec<.*Piece<'_>>)>$", None, 2)]
+_pp = dict(timeout=1200, mem_gb=12, unwindset=PARSE_REC)
+PROPS["C11P"] = dict(PROPS["C11"])
+PROPS["C11P"]["harnesses"] = [H("c11_parse::parse_free3", **_pp), H("c11_parse::parse_free4", **_pp), H("c11_parse::parse_brace_free3", **_pp)]
+_vv = dict(timeout=900, mem_gb=8, unwindset=[(r"^c19_value::body$", "*", 70)])
+_c19 = [("simple3", "/a/$ENV{A}/b, A set, value of 3 bytes", "quick"), ("empty", "the same, empty value", "quick"), ("unset", "the same, A unset", "quick"),
+        ("twice3", "$ENV{A}-$ENV{A}", "quick"), ("tricky_both_set", "x$$ENV{A}$ENV{B}y, both set, A's value of 6 bytes (can spell ENV{B} behind the '$')", "quick"),
+        ("tricky_b_unset", "the same, B unset", "quick"), ("tricky_a_unset", "the same, A unset, B's value of 4 bytes", "quick"),
+        ("dotted_name", "/$ENV{A.b_1}.log", "quick"), ("unicode_name", "/$ENV{e-acute}.log", "quick"), ("unterminated", "/a/$ENV{A (A set)", "quick"),
+        ("empty_name", "$ENV{}$ENV{A}", "quick"), ("bad_first", "$ENV{-A}$ENV{.A}$ENV{A}", "quick"), ("bad_inner", "$ENV{A-}$ENV{A}", "quick"),
+        ("stray", "$${}}$ENV${A}$ENV{A}$", "quick"), ("nested", "$ENV{$ENV{A}}, A set", "quick"), ("nested_unset", "$ENV{$ENV{A}}, A unset", "quick")]
+PROPS["C19"] = dict(
+    functions=["append::env_util::expand_env_vars", "is_env_var_start", "is_env_var_part", "str::match_indices (two-way searcher), String::push_str (executed for real)"],
+    bounds="16 path texts (instances) with one or two references: plain, repeated, adjacent references behind a stray '$', dotted / non-ASCII names, "
+           "unterminated, empty name, illegal first / inner character, stray syntax characters, nested look-alike; which variables are set and the "
+           "LENGTH of each value (0-6 bytes) are instance parameters; solver variables: every byte of every value over {$ E N V { } B z}",
+    outside="free path text and free variable names (the searcher over symbolic text did not fit), values longer than 6 bytes or with other bytes, "
+            "more than two references, the call sites in the appenders (the same function, reached from rotate() in the C07 instances with $ENV)",
+    assumptions=["E6: std::env::var is answered from a harness table (name -> set / unset, value bytes)",
+                 "hook verif_expand_env_vars forwards to the private function",
+                 "Unicode classification of non-ASCII scalars (core::unicode::unicode_data::{alphabetic,n}::lookup) is replaced by the answer for U+00E9, the only non-ASCII scalar of the instances",
+                 "all copies have constant sizes by construction of the instances (DESIGN.md 9.8, rule 23)"],
+    level_text="Bounded model checking of the real expansion: for every instance and every content of the values the result equals 'each reference to "
+               "a set variable replaced by exactly its value, in one pass, everything else byte for byte unchanged' - in particular a value that "
+               "spells a reference (or completes one with the surrounding text) is not expanded again, and unset variables stay as written.",
+    level_note="Trusted: Kani/CBMC/CaDiCaL. Path texts, set / unset and value lengths are enumerated instances, not solver variables.",
+    design_ref="DESIGN.md section 5 (C19) and 9.8",
+    harnesses=[H("c19_value::value_%s" % k, tier=t, instance=txt, symbolic="value bytes", bound="unwind 20-30; harness loops 70", **_vv) for k, txt, t in _c19]
+              + [H("c19_value::value_simple3_witness", kind="witness", **_vv)],
+)
+NOT_APPLICABLE.pop("C19", None)
